@@ -618,13 +618,14 @@ def scenarios(kind, N, LN, is_sorted=True, full=3):
         for n in range(N + 1):
             if kind == 'copy_ctor' and n > 0:
                 continue
-            # *this: ascending and (unsorted container) descending; the other container in every order
+            # whole-content members do not look at keys: ascending and (unsorted container) descending and one mixed order
+            # of the other container, ascending / descending of *this
             for perm in orders(n, is_sorted, 0)[:2]:
                 for cap in caps_for(n):
                     if kind == 'copy_ctor' and cap is not None:
                         continue
                     for m in range(N + 1):
-                        for perm2 in orders(m, is_sorted, full):
+                        for perm2 in orders(m, is_sorted, 0)[:3]:
                             for cap2 in caps_for(m):
                                 out.append(dict(n=n, cap=cap, perm=perm, other=(m, cap2, perm2),
                                                 label='size %d %s, %s; other size %d %s, %s'
@@ -1166,5 +1167,5 @@ def run_ext(rep, repo, tier, only=None):
         rep.floor(rule + ':analysed', nm)
         for sub, k in FLOORS[rule].items():
             rep.floor('%s:%s' % (rule, sub), k)
-    if not only and total < (3000 if tier != 'thorough' else 11500):
+    if not only and total < (2700 if tier != 'thorough' else 9000):
         raise AnalysisBroken('flat content rules: only %d (member, scenario) pairs analysed' % total)
